@@ -438,6 +438,13 @@ func (g *G) Field() (*of.MatchField, *spec.Node, string) {
 // Match builds a match with AddField, bottom-up.
 func (g *G) Match(maxFields int) (*of.Match, *spec.Node) {
 	m := of.NewMatch()
+	return m, g.MatchInto(m, maxFields, nil)
+}
+
+// MatchInto adds drawn fields to a match the caller already has (the one a
+// message constructor made); between, if not nil, runs after every added field
+// (whatever else the caller does while this match is under construction).
+func (g *G) MatchInto(m *of.Match, maxFields int, between func()) *spec.Node {
 	n := spec.N("match")
 	k := g.ListLen("nfields", maxFields)
 	for i := 0; i < k; i++ {
@@ -448,6 +455,9 @@ func (g *G) Match(maxFields int) (*of.Match, *spec.Node) {
 		}
 		g.Budget -= sz
 		m.AddField(*f)
+		if between != nil {
+			between()
+		}
 		n.Add(fn)
 		g.Label("field=" + name)
 		if fn.Get("hasmask") == 1 {
@@ -455,7 +465,7 @@ func (g *G) Match(maxFields int) (*of.Match, *spec.Node) {
 		}
 	}
 	g.Budget -= 8
-	return m, n
+	return n
 }
 
 // HeaderField returns a field header (no payload) for reg_move / reg_load /
